@@ -198,8 +198,20 @@ type world struct {
 	fibM    int // 0 = name tree, else hash table with this m
 	probeN  []string // names probed in the dead nonce list
 	probeX  []uint32
+	// production-loop mode: the real Thread.Run goroutine of the (single) thread is the driver; packets reach it through the link
+	// service dispatch and QueueInterest/QueueData, the PIT update timer and the dead-nonce ticker fire by themselves as the virtual
+	// time advances, and the thread is stopped with core.ShouldQuit/TellToQuit at the end of the history
+	runLoop   bool
+	expLog    []expObs // expirations the loop's PIT updates performed (token, instant), not yet written to the trace
+	nextSweep int64    // index of the next dead-nonce ticker instant not yet written to the trace
+	dnlLen    int      // size of the dead nonce list at the last observation
 	// bookkeeping for the generator
 	emitted []sent // Interests the forwarder emitted (to craft replies)
+}
+
+type expObs struct {
+	tok uint32
+	at  int64
 }
 
 func (wd *world) now() int64 { return int64(time.Since(wd.t0)) }
@@ -246,15 +258,119 @@ func newWorld(w *bufio.Writer, nthreads int, dnlMs ...int) *world {
 		th := fw.NewThread(i)
 		fw.Threads[i] = th
 		dts[i] = th
-		th.VerifPitCs().(*table.PitCsTree).VerifObserveExpiration(func(tok uint32) { wd.expired = append(wd.expired, tok) })
+		th.VerifPitCs().(*table.PitCsTree).VerifObserveExpiration(func(tok uint32) {
+			wd.expired = append(wd.expired, tok)
+			if wd.runLoop {
+				wd.expLog = append(wd.expLog, expObs{tok, wd.now()})
+			}
+		})
 	}
 	dispatch.InitializeFWThreads(dts)
 	wd.threads = fw.Threads
+	if len(dnlMs) > 2 && dnlMs[2] > 0 && nthreads == 1 {
+		wd.runLoop = true
+		wd.nextSweep = 1
+		for _, th := range wd.threads {
+			go th.Run()
+		}
+		synctest.Wait()
+	}
 	return wd
+}
+
+// dnlTickerPeriod: the period of the dead-nonce ticker the Run loop listens to, measured on a dead nonce list of the implementation
+// (probeTicker); the ticker of a thread is created with the thread, i.e. at instant 0 of the case, so the loop sweeps at the
+// multiples of the period
+var dnlTickerPeriod = int64(100 * time.Millisecond)
+
+func probeTicker(t *testing.T) {
+	synctest.Test(t, func(t *testing.T) {
+		d := table.NewDeadNonceList()
+		t0 := time.Now()
+		<-d.Ticker.C
+		if iv := int64(time.Since(t0)); iv > 0 {
+			dnlTickerPeriod = iv
+		}
+		d.Ticker.Stop()
+	})
+}
+
+func (wd *world) dnlTickerInterval() int64 { return dnlTickerPeriod }
+
+// flushTimers writes, in time order, what the production loop did by itself since the last call: the PIT updates that reaped
+// entries (`ev rtick`, with the reaped tokens) and the dead-nonce sweeps (`ev rsweep`). These blocks carry no state dump (`noobs`):
+// the state is observed after the next operation.
+func (wd *world) flushTimers() {
+	now := wd.now()
+	type tev struct {
+		at   int64
+		kind int // 0 = PIT update, 1 = dead-nonce sweep
+		toks []string
+	}
+	evs := []tev{}
+	for _, e := range wd.expLog {
+		if n := len(evs); n > 0 && evs[n-1].at == e.at {
+			evs[n-1].toks = append(evs[n-1].toks, strconv.FormatUint(uint64(e.tok), 10))
+		} else {
+			evs = append(evs, tev{at: e.at, toks: []string{strconv.FormatUint(uint64(e.tok), 10)}})
+		}
+	}
+	wd.expLog = wd.expLog[:0]
+	iv := wd.dnlTickerInterval()
+	for ; wd.nextSweep*iv <= now; wd.nextSweep++ {
+		evs = append(evs, tev{at: wd.nextSweep * iv, kind: 1})
+	}
+	sort.SliceStable(evs, func(i, j int) bool {
+		if evs[i].at != evs[j].at {
+			return evs[i].at < evs[j].at
+		}
+		return evs[i].kind < evs[j].kind
+	})
+	// a sweep of an empty dead nonce list does nothing: not written (the list grows only by a PIT update or a packet)
+	nonEmpty := wd.dnlLen > 0
+	for _, e := range evs {
+		if e.kind == 0 {
+			nonEmpty = true
+		} else if !nonEmpty {
+			continue
+		}
+		if e.kind == 0 {
+			wd.pf("ev rtick 0 %d\npick expired %s\nnoobs\n", e.at, strings.Join(e.toks, ","))
+		} else {
+			wd.pf("ev rsweep 0 %d\nnoobs\n", e.at)
+		}
+	}
+}
+
+// begin: every operation happens at a distinct virtual instant; in production-loop mode the loop first handles whatever became due
+func (wd *world) begin() {
+	time.Sleep(time.Microsecond)
+	wd.log = wd.log[:0]
+	wd.pend = wd.pend[:0]
+	wd.expired = wd.expired[:0]
+	if wd.runLoop {
+		synctest.Wait()
+		wd.flushTimers()
+	}
 }
 
 func (wd *world) close() {
 	core.ShouldQuit = true
+	if wd.runLoop {
+		for _, th := range wd.threads {
+			th.TellToQuit()
+			<-th.HasQuit
+		}
+		for _, th := range wd.threads {
+			// the goroutine of the last armed update timer must not outlive the bubble
+			select {
+			case <-th.VerifPitCs().UpdateTimer():
+			case <-time.After(time.Second):
+			}
+		}
+		core.ShouldQuit = false
+		return
+	}
 	for _, th := range wd.threads {
 		pc := th.VerifPitCs()
 		<-pc.UpdateTimer()
@@ -274,12 +390,16 @@ func opt(s string) bool { return s != "-" }
 
 func (wd *world) exec(line string) {
 	f := strings.Fields(line)
+	if f[0] == "rtick" || f[0] == "rsweep" {
+		return // what the production loop did by itself in the recorded run; it does so again
+	}
+	if wd.runLoop && (f[0] == "tick" || f[0] == "sweep") {
+		// the production loop updates the PIT and sweeps the dead nonce list by itself: let one period pass instead
+		f = []string{"sleep", "100000000"}
+		line = "sleep 100000000"
+	}
 	logOp("%s\n", line)
-	// every operation happens at a distinct virtual instant
-	time.Sleep(time.Microsecond)
-	wd.log = wd.log[:0]
-	wd.pend = wd.pend[:0]
-	wd.expired = wd.expired[:0]
+	wd.begin()
 	switch f[0] {
 	case "face":
 		id, _ := strconv.ParseUint(f[2], 10, 64)
@@ -330,6 +450,10 @@ func (wd *world) exec(line string) {
 	case "sleep":
 		d, _ := strconv.ParseInt(f[1], 10, 64)
 		time.Sleep(time.Duration(d))
+		if wd.runLoop {
+			synctest.Wait()
+			wd.flushTimers()
+		}
 		wd.pf("ev sleep %s\n", f[1])
 	case "tick":
 		k := 0
@@ -628,6 +752,9 @@ func (wd *world) doData(f []string, line string) {
 	face.VerifFwDispatch(wd.scopeOf(faceNo), faceNo, pkt)
 	got := wd.drain()
 	wd.pf("ev data %d %s\n", now, strings.Join(f[1:], " "))
+	if got == nil {
+		return
+	}
 	ths := []string{}
 	for k, n := range got {
 		if n > 0 {
@@ -693,6 +820,12 @@ func (wd *world) scopeOf(id uint64) defn.Scope {
 
 // drain processes the queued packets thread by thread (ascending), tagging the sends with the thread
 func (wd *world) drain() []int {
+	if wd.runLoop {
+		// the Run goroutine takes the packets from its queues; wait until it is back in its select
+		wd.cur = 0
+		synctest.Wait()
+		return nil
+	}
 	got := make([]int, len(wd.threads))
 	for k, th := range wd.threads {
 		wd.cur = k
@@ -720,6 +853,9 @@ func (wd *world) flush() {
 func (wd *world) observe() {
 	wd.flush()
 	wd.writeOuts(wd.log)
+	if wd.runLoop {
+		wd.pf("clock %d\n", wd.now())
+	}
 	for k, th := range wd.threads {
 		wd.observeThread(k, th)
 	}
@@ -786,8 +922,9 @@ func (wd *world) observeThread(k int, th *fw.Thread) {
 		}
 	}
 	wd.pf("pit %d%s\n", k, sb.String())
-	np, nt, nq := pc.VerifPitCounters()
-	wd.pf("pitn %d %d %d %d\n", k, np, nt, nq)
+	// reported sizes: through the production accessors Thread.GetNumPitEntries/GetNumCsEntries (-> PitSize/CsSize)
+	_, nt, nq := pc.VerifPitCounters()
+	wd.pf("pitn %d %d %d %d %d\n", k, th.GetNumPitEntries(), nt, nq, th.GetNumCsEntries())
 	// CS
 	cs := pc.VerifDumpCs()
 	cl := make([]string, len(cs))
@@ -799,6 +936,7 @@ func (wd *world) observeThread(k int, th *fw.Thread) {
 	// dead nonce list: size and membership of the probe set
 	dn := th.VerifDeadNonceList()
 	n1, _ := dn.VerifLen()
+	wd.dnlLen = n1
 	hits := []string{}
 	for _, ns := range wd.probeN {
 		nm := parseName(ns)
@@ -1419,12 +1557,12 @@ func prefixClosure(names []string) []string {
 
 func header(wd *world, k int, names []string, nonces []uint32) {
 	wd.pf("case %d\n", k)
-	logOp("case %d\nthreads %d\ndnl %d\nfibm %d\n", k, wd.nthr, wd.dnlMs, wd.fibM)
+	logOp("case %d\nthreads %d\ndnl %d\nfibm %d\nrunloop %d\n", k, wd.nthr, wd.dnlMs, wd.fibM, map[bool]int{false: 0, true: 1}[wd.runLoop])
 	xs := make([]string, len(nonces))
 	for i, x := range nonces {
 		xs[i] = strconv.FormatUint(uint64(x), 10)
 	}
-	wd.pf("cfg threads=%d dnl=%d cscap=1024 region=%s fibm=%d\n", wd.nthr, int64(wd.dnlMs)*1000000, regionName, wd.fibM)
+	wd.pf("cfg threads=%d dnl=%d cscap=1024 region=%s fibm=%d run=%d\n", wd.nthr, int64(wd.dnlMs)*1000000, regionName, wd.fibM, map[bool]int{false: 0, true: 1}[wd.runLoop])
 	// the thread HashNameToFwThread selects for every name of the universe and every prefix of one
 	hs := []string{}
 	for _, n := range prefixClosure(names) {
@@ -1458,6 +1596,7 @@ func TestTrace(t *testing.T) {
 		defer opsLog.Close()
 	}
 	configureOnce()
+	probeTicker(t)
 	r := rand.New(rand.NewSource(seed))
 	universe := buildUniverse(r)
 	pool := []uint32{0x01020304, 7, 0xdeadbeef, 0xffffffff, 0, 123456789, 42, 0x80000000}
@@ -1485,20 +1624,22 @@ func TestTrace(t *testing.T) {
 		}
 		for k, ops := range cases {
 			synctest.Test(t, func(t *testing.T) {
-				nt, dl, fm := 1, 0, 0
-				for len(ops) > 0 && (strings.HasPrefix(ops[0], "threads ") || strings.HasPrefix(ops[0], "dnl ") || strings.HasPrefix(ops[0], "fibm ")) {
+				nt, dl, fm, rl := 1, 0, 0, 0
+				for len(ops) > 0 && (strings.HasPrefix(ops[0], "threads ") || strings.HasPrefix(ops[0], "dnl ") || strings.HasPrefix(ops[0], "fibm ") || strings.HasPrefix(ops[0], "runloop ")) {
 					v, _ := strconv.Atoi(strings.Fields(ops[0])[1])
 					switch {
 					case strings.HasPrefix(ops[0], "threads "):
 						nt = v
 					case strings.HasPrefix(ops[0], "dnl "):
 						dl = v
+					case strings.HasPrefix(ops[0], "runloop "):
+						rl = v
 					default:
 						fm = v
 					}
 					ops = ops[1:]
 				}
-				wd := newWorld(w, nt, dl, fm)
+				wd := newWorld(w, nt, dl, fm, rl)
 				header(wd, k, universe, pool)
 				for i := 0; i < len(ops); i++ {
 					if strings.HasPrefix(ops[i], "mark tok ") {
@@ -1520,8 +1661,7 @@ func TestTrace(t *testing.T) {
 					}
 					if ops[i] == "mark frames" {
 						if i+2 < len(ops) && strings.HasPrefix(normalizeOp(ops[i+1]), "int ") && strings.HasPrefix(normalizeOp(ops[i+2]), "int ") {
-							time.Sleep(time.Microsecond)
-							wd.log, wd.pend, wd.expired = wd.log[:0], wd.pend[:0], wd.expired[:0]
+							wd.begin()
 							logOp("mark frames\n%s\n%s\n", normalizeOp(ops[i+1]), normalizeOp(ops[i+2]))
 							wd.doFrames(normalizeOp(ops[i+1]), normalizeOp(ops[i+2]))
 							i += 2
@@ -1551,7 +1691,11 @@ func TestTrace(t *testing.T) {
 			if r.Intn(3) == 0 {
 				fm = []int{1, 2, 3, 5}[r.Intn(4)]
 			}
-			wd := newWorld(w, nt, dl, fm)
+			rl := 0 // production-loop mode: three in five of the single-thread cases
+			if nt == 1 && r.Intn(5) < 3 {
+				rl = 1
+			}
+			wd := newWorld(w, nt, dl, fm, rl)
 			g := &gen{r: r, names: universe, wd: wd}
 			// hot names: a small shared-prefix cluster so that PIT entries collide, aggregate and multi-match
 			base := g.pick([]string{"/8.1", "/8.1/8.2", "/8.0/8.4", "/8.0", "/8.2", "/"})
